@@ -712,6 +712,24 @@ class Mini:
                     ex = getattr(cm, "__exit__", None)
                     if callable(ex):
                         ex(None, None, None)
+        elif isinstance(s, ast.Try):
+            # an exception of the interpreted program is a ModelFault; any
+            # handler of the statement is taken to catch it (handlers are
+            # not matched by type: fail closed for bare re-raise)
+            try:
+                try:
+                    self.block(s.body, env, loc)
+                except ModelFault as fault:
+                    if not s.handlers:
+                        raise
+                    h = s.handlers[0]
+                    if h.name:
+                        env[h.name] = Opaque(f"exception({fault})")
+                    self.block(h.body, env, loc)
+                else:
+                    self.block(s.orelse, env, loc)
+            finally:
+                self.block(s.finalbody, env, loc)
         elif isinstance(s, ast.Return):
             raise _Return(None if s.value is None
                           else self.expr(s.value, env, loc))
